@@ -1,8 +1,16 @@
 package props
 
 import (
+	"crypto/ecdsa"
+	"crypto/elliptic"
+	crand "crypto/rand"
+	"crypto/tls"
+	"crypto/x509"
+	"crypto/x509/pkix"
 	"fmt"
+	"math/big"
 	"strings"
+	"sync"
 	"testing"
 	"testing/synctest"
 	"time"
@@ -210,6 +218,92 @@ func runC15(c *ev.Case, ctx *lib.Ctx, sc c15Scenario, lc *logCapture) {
 	c.Event("answers_matched", n+2)
 }
 
+var (
+	c15CertOnce sync.Once
+	c15Cert     tls.Certificate
+	c15CertErr  error
+)
+
+func c15TLSConfig() (*tls.Config, error) {
+	c15CertOnce.Do(func() {
+		key, err := ecdsa.GenerateKey(elliptic.P256(), crand.Reader)
+		if err != nil {
+			c15CertErr = err
+			return
+		}
+		tmpl := &x509.Certificate{SerialNumber: big.NewInt(1), Subject: pkix.Name{CommonName: "verif"},
+			NotBefore: time.Unix(0, 0), NotAfter: time.Unix(4000000000, 0), KeyUsage: x509.KeyUsageDigitalSignature}
+		der, err := x509.CreateCertificate(crand.Reader, tmpl, tmpl, &key.PublicKey, key)
+		if err != nil {
+			c15CertErr = err
+			return
+		}
+		c15Cert = tls.Certificate{Certificate: [][]byte{der}, PrivateKey: key}
+	})
+	return &tls.Config{Certificates: []tls.Certificate{c15Cert}}, c15CertErr
+}
+
+// runC15TLS: one accepted connection is a TLS connection whose peer sends three
+// bytes of a handshake record and then stays silent (connected). That must not
+// keep the listener from accepting and serving the other connections.
+func runC15TLS(c *ev.Case, ctx *lib.Ctx, pos int) {
+	sig := func(op string) ev.Sig { return ev.Sig{"op": op, "faults": "tls-stalled-handshake"} }
+	cfg, err := c15TLSConfig()
+	if err != nil {
+		c.Fail(sig("setup"), nil, nil, "certificate: %v", err)
+		return
+	}
+	mux := diam.NewServeMux()
+	mux.HandleFunc("ALL", func(dc diam.Conn, m *diam.Message) { m.Answer(2001).WriteTo(dc) })
+	srv := &diam.Server{Handler: mux, Dict: ctx.Parser}
+	ln := memnet.NewListener()
+	serveDone := make(chan error, 1)
+	go func() { serveDone <- srv.Serve(ln) }()
+	stalled := memnet.NewConn()
+	healthy := []*memnet.Conn{memnet.NewConn(), memnet.NewConn(), memnet.NewConn()}
+	offered := 0
+	for i := 0; i <= len(healthy); i++ {
+		if i == pos {
+			ln.Offer(tls.Server(stalled, cfg))
+			stalled.Feed([]byte{0x16, 0x03, 0x01})
+		}
+		if i < len(healthy) {
+			ln.Offer(healthy[i])
+			offered++
+		}
+	}
+	for i, mc := range healthy {
+		mc.Feed(seqMsg(uint32(i+1), 12))
+	}
+	time.Sleep(5 * time.Second)
+	synctest.Wait()
+	defer func() {
+		stalled.FeedEOF()
+		for _, mc := range healthy {
+			mc.FeedEOF()
+		}
+		ln.Close()
+		time.Sleep(time.Second)
+		synctest.Wait()
+	}()
+	select {
+	case err := <-serveDone:
+		c.Fail(sig("serve-returned"), nil, nil, "Server.Serve returned (%v) with a stalled TLS handshake at accept position %d", err, pos)
+		return
+	default:
+	}
+	for i, mc := range healthy {
+		msgs, _ := peer.SplitMessages(mc.Written())
+		if len(msgs) != 1 || peer.Header(msgs[0]).HopByHop != uint32(i+1) {
+			c.Fail(sig("listener-stopped-accepting"), nil, nil, "connection %d (accepted after/before a TLS connection whose handshake is stalled at accept position %d) got %d answers; accept calls so far: %d", i, pos, len(msgs), ln.AcceptCalls())
+			return
+		}
+	}
+	c.Event("scenarios", 1)
+	c.Event("faults_injected", 1)
+	c.Event("answers_matched", len(healthy))
+}
+
 func TestC15(t *testing.T) {
 	rec := ev.Open(t, "C15")
 	defer rec.Close()
@@ -251,6 +345,14 @@ func TestC15(t *testing.T) {
 		}
 	})
 	rec.Exhaustive("placements")
+	rec.Suite("tls-stalled-handshake", 4*rec.N(2, 20), func(c *ev.Case) {
+		pos := c.I % 4
+		c.Class("K=3/fault=tls-stalled-handshake/pos=%d", pos)
+		leak := runBubbleWD(t, rec, c, 60*time.Second, func() { runC15TLS(c, ctx, pos) })
+		if leak != "" && !c.Failed() {
+			c.Fail(ev.Sig{"op": "bubble-leak", "faults": "tls-stalled-handshake"}, nil, nil, "goroutines left blocked after the scenario: %s", leak)
+		}
+	})
 	rec.Suite("two-faults-random", rec.N(600, 30000), func(c *ev.Case) {
 		r := c.R
 		sc := c15Scenario{K: []int{2, 3, 5}[r.IntN(3)], perConn: 1 + r.IntN(5)}
